@@ -84,6 +84,25 @@ def generate(api):
 
     out = [api.HEADER,
            "From RV Require Import Model.Base Model.RenderPrims Gen.LeafFit.\n"]
+    # ---- geom::to_int_rect (the checked replacement of tiny_skia_path::Rect::to_int_rect), if present -----------
+    have_geom_tir = False
+    try:
+        gsrc = api.rd('crates/resvg/src/geom.rs')
+        if re.search(r"\bfn\s+to_int_rect\s*\(", gsrc):
+            cfg_t = dict(dom='Z', types={'Rect': 'qrect'}, ret='option irect',
+                         methods={'x': 'rx', 'y': 'ry', 'width': 'rw', 'height': 'rh', 'floor': 'f32_floor', 'ceil': 'f32_ceil',
+                                  'round': 'f32_round', 'trunc': 'f32_trunc'},
+                         casts={'i32': 'as_i32', 'u32': 'as_u32'},
+                         calls={'IntRect::from_xywh': 'irect_from_xywh', 'max': 'Z.max', 'min': 'Z.min'})
+            d = rs.translate_fn(gsrc, 'to_int_rect', cfg_t, 'geom_to_int_rect')
+            out.append("(* crates/resvg/src/geom.rs :: to_int_rect *)\n%s\n" % d)
+            have_geom_tir = True
+            api.ok('leaves', 'geom_to_int_rect', props=PROPS, rel='crates/resvg/src/geom.rs')
+    except (U, OSError, ValueError, IndexError) as ex:
+        api.broken('leaf', 'geom_to_int_rect', PROPS, ex)
+    if not have_geom_tir:
+        out.append("(* geom::to_int_rect not present in this tree: tiny_skia_path::Rect::to_int_rect (hand model) *)\n"
+                   "Definition geom_to_int_rect (r : qrect) : option irect := rect_to_int_rect_opt r.\n")
     try:
         src = api.rd(REL)
         m = re.search(r"\bfn\s+render_group\s*\(", src)
@@ -116,11 +135,18 @@ def generate(api):
                             'floor': 'f32_floor', 'ceil': 'f32_ceil', 'round': 'f32_round', 'trunc': 'f32_trunc',
                             'saturating_sub': 'i32_saturating_sub', 'saturating_add': 'u32_saturating_add',
                             'wrapping_sub': 'i32_wrapping_sub', 'wrapping_add': 'u32_wrapping_add',
-                            'to_int_rect': 'rect_to_int_rect'},
+                            'to_int_rect': 'rect_to_int_rect', 'to_rect': None},
                    casts={'i32': 'as_i32', 'u32': 'as_u32'},
                    calls={'IntRect::from_xywh': 'irect_from_xywh', 'IntRect::from_ltrb': 'irect_from_ltrb',
-                          'fit_to_rect': 'fit_to_rect', 'Some': 'Some'})
+                          'fit_to_rect': 'fit_to_rect', 'Some': 'Some', 'to_int_rect': 'geom_to_int_rect'})
         d = Em(cfg).block(ast)
+        # does the filtered branch still go through the panicking Rect::to_int_rect().unwrap()?
+        unwraps = re.search(r"\.\s*to_int_rect\(\)", piece) is not None
+        out.append("Definition layer_to_int_rect_unwraps : bool := %s.\n" % ('true' if unwraps else 'false'))
+        if unwraps:
+            api.broken('leaf', 'render_group.to_int_rect', PROPS,
+                       "the filtered branch of render_group goes through the panicking tiny_skia Rect::to_int_rect() again "
+                       "(fixed in 36e1223 by the checked crate::geom::to_int_rect)")
         out.append("(* %s :: render_group, statements `let mut ibbox = ...` up to `let shift_ts` *)\n"
                    "Definition layer_ibbox (bbox : qrect) (no_filters : bool) (max_bbox : irect) : option irect :=\n  %s.\n" % (REL, d))
 
@@ -185,6 +211,32 @@ def generate(api):
         api.ok('leaves', 'render_group', props=PROPS, rel=REL)
     except (U, OSError, ValueError, IndexError) as ex:
         api.broken('leaf', 'render_group', PROPS, ex)
+
+    # ---- filter/mod.rs: region = filter.rect().transform(ts) -> to_int_rect --------------------------
+    try:
+        fsrc = api.rd('crates/resvg/src/filter/mod.rs')
+        m = re.search(r"let\s+region\s*=\s*filter\s*\.rect\(\)\s*\.transform\(ts\)\s*\.(map|and_then)\(\|r\|\s*([^)]*\)+)\s*\.ok_or\(Error::InvalidRegion\)\?;", fsrc)
+        if not m:
+            raise U("filter region computation `filter.rect().transform(ts).<map|and_then>(..).ok_or(InvalidRegion)?` not found in apply_inner")
+        inner = m.group(2)
+        if re.match(r"r\.to_int_rect\(\)\)$", inner) and m.group(1) == 'map':
+            out.append("(* filter::apply_inner: region = rect.transform(ts).map(|r| r.to_int_rect()) *)\n"
+                       "Definition filter_to_int_rect (r : qrect) : option irect := rect_to_int_rect_opt r.\n"
+                       "Definition filter_to_int_rect_unwraps : bool := true.\n")
+            api.broken('leaf', 'filter_region.to_int_rect', ['C02'],
+                       "filter::apply_inner converts the region with the panicking Rect::to_int_rect() again (fixed in 36e1223)")
+        elif re.match(r"crate::geom::to_int_rect\(r\.to_rect\(\)\)\)$", inner) and m.group(1) == 'and_then':
+            out.append("(* filter::apply_inner: region = rect.transform(ts).and_then(|r| crate::geom::to_int_rect(r.to_rect())) *)\n"
+                       "Definition filter_to_int_rect (r : qrect) : option irect := geom_to_int_rect r.\n"
+                       "Definition filter_to_int_rect_unwraps : bool := false.\n")
+        else:
+            raise U("unrecognised filter region conversion: %s" % inner)
+        if len(re.findall(r"\.map\(\|r\|\s*r\.to_int_rect\(\)\)", fsrc)) > 0:
+            api.broken('leaf', 'filter_subregion.to_int_rect', ['C02'],
+                       "filter/mod.rs converts a (sub)region with the panicking Rect::to_int_rect() (fixed in 36e1223)")
+        api.ok('leaves', 'filter_region', props=PROPS, rel='crates/resvg/src/filter/mod.rs')
+    except (U, OSError, ValueError, IndexError) as ex:
+        api.broken('leaf', 'filter_region', ['C02', 'C13'], ex)
 
     # ---- max_bbox (lib.rs) ------------------------------------------------------------------------
     try:
